@@ -63,8 +63,8 @@ Qed.
 Lemma mfold_id : forall l M, mbelow (2 ^ l) (mfold l l M) M.
 Proof.
   intros l M. apply mbelow_bits. intros r c Hr. rewrite mfold_bit, N.sub_diag.
-  change (N.to_nat (2 ^ 0)) with 1%nat. cbn [seq existsb].
-  rewrite orb_false_r. f_equal. f_equal. lia.
+  change (N.to_nat (2 ^ 0)) with 1%nat. cbn [seq existsb]. change (N.of_nat 0) with 0.
+  rewrite orb_false_r, N.mul_0_l, N.add_0_r. reflexivity.
 Qed.
 
 Lemma bool_eq_iff : forall a b : bool, (a = true <-> b = true) -> a = b.
@@ -165,7 +165,7 @@ Lemma pop_rows_split : forall M n m, pop_rows M (n + m) = pop_rows M n + pop_row
 Proof.
   intros M n m. induction m as [|m IH].
   - rewrite Nat.add_0_r. cbn. lia.
-  - rewrite Nat.add_succ_r, !pop_rows_S, IH. f_equal. replace (N.of_nat m + N.of_nat n) with (N.of_nat (n + m)) by lia. lia.
+  - rewrite Nat.add_succ_r, !pop_rows_S, IH. replace (N.of_nat m + N.of_nat n) with (N.of_nat (n + m)) by lia. lia.
 Qed.
 
 (* folding by one level at most halves the count *)
@@ -173,7 +173,8 @@ Lemma mfold_one : forall l M, mbelow (2 ^ l) (mfold (l + 1) l M) (mor M (fun r =
 Proof.
   intros l M. apply mbelow_bits. intros r c Hr. rewrite mfold_bit, mor_bit.
   replace (l + 1 - l) with 1 by lia. change (N.to_nat (2 ^ 1)) with 2%nat. cbn [seq existsb].
-  rewrite orb_false_r. f_equal; f_equal; lia.
+  change (N.of_nat 0) with 0. change (N.of_nat 1) with 1.
+  rewrite orb_false_r, N.mul_0_l, N.add_0_r, N.mul_1_l. reflexivity.
 Qed.
 
 Lemma pop_fold_one : forall l M, pop_rows M (Knat (l + 1)) <= 2 * pop_rows (mfold (l + 1) l M) (Knat l).
@@ -208,13 +209,172 @@ Proof.
   rewrite N2Nat.id in P. replace (lt + (lf - lt)) with lf in P by lia. exact P.
 Qed.
 
+Lemma pos_bits_nonempty : forall p i, (1 <= length (pos_bits p i))%nat.
+Proof. induction p as [q IH|q IH|]; intros i; cbn [pos_bits length]; [lia|apply IH|lia]. Qed.
+
+Lemma popcount_zero : forall w, popcount w = 0 -> w = 0.
+Proof.
+  intros [|p] H; [reflexivity|]. unfold popcount in H. cbn [bits_of] in H.
+  pose proof (pos_bits_nonempty p 0). lia.
+Qed.
+
 Lemma pop_rows_zero_rows : forall M n, pop_rows M n = 0 -> forall i, (i < n)%nat -> M (N.of_nat i) = 0.
 Proof.
   intros M n. induction n as [|n IH]; intros H i Hi; [lia|].
   rewrite pop_rows_S in H. destruct (Nat.eq_dec i n) as [->|Hne].
-  - assert (P : popcount (M (N.of_nat n)) = 0) by lia. unfold popcount in P.
-    destruct (M (N.of_nat n)) as [|p] eqn:E; [reflexivity|]. exfalso.
-    cbn [bits_of] in P. destruct p; cbn [pos_bits length] in P; try lia.
-    revert P. generalize 1 at 1. induction p; intros i0 P; cbn [pos_bits length] in P; try lia; eauto.
+  - apply popcount_zero. lia.
   - apply IH; lia.
+Qed.
+
+(* ---------- the union Spec ---------- *)
+(* an input: (lg_k, matrix); only the rows below 2^lg_k matter *)
+Definition uinput : Type := (N * matrix)%type.
+Definition in_empty (i : uinput) : bool := pop_rows (snd i) (Knat (fst i)) =? 0.
+
+(* CpcUnion::update at the abstraction level: empty inputs are ignored; otherwise both sides are folded to
+   the smaller lg_k and OR-ed *)
+Definition uspec_step (a i : uinput) : uinput :=
+  if in_empty i then a
+  else let lg := N.min (fst a) (fst i) in (lg, mor (mfold (fst a) lg (snd a)) (mfold (fst i) lg (snd i))).
+Definition uspec (lg0 : N) (ins : list uinput) : uinput := fold_left uspec_step ins (lg0, mzero).
+
+(* closed form: the smallest lg_k among the union and the non-empty inputs ... *)
+Definition lgmin (lg0 : N) (ins : list uinput) : N :=
+  fold_left (fun acc i => if in_empty i then acc else N.min acc (fst i)) ins lg0.
+(* ... and the OR of every non-empty input folded to it *)
+Fixpoint orfolds (lgm : N) (ins : list uinput) (r : N) : N :=
+  match ins with
+  | [] => 0
+  | i :: rest => N.lor (if in_empty i then 0 else mfold (fst i) lgm (snd i) r) (orfolds lgm rest r)
+  end.
+Definition or_spec (lg0 : N) (ins : list uinput) : matrix := orfolds (lgmin lg0 ins) ins.
+
+Lemma lgmin_le : forall ins l, lgmin l ins <= l.
+Proof.
+  induction ins as [|i ins IH]; intros l; cbn [lgmin fold_left]; [lia|].
+  fold (lgmin (if in_empty i then l else N.min l (fst i)) ins).
+  specialize (IH (if in_empty i then l else N.min l (fst i))). destruct (in_empty i); lia.
+Qed.
+
+Lemma lgmin_cons : forall i ins l, lgmin l (i :: ins) = lgmin (if in_empty i then l else N.min l (fst i)) ins.
+Proof. reflexivity. Qed.
+
+Lemma lgmin_min : forall ins a b, lgmin (N.min a b) ins = N.min b (lgmin a ins).
+Proof.
+  induction ins as [|i ins IH]; intros a b; [cbn; lia|].
+  rewrite !lgmin_cons. destruct (in_empty i); [apply IH|].
+  rewrite <- IH. f_equal. lia.
+Qed.
+
+Lemma lgmin_le_in : forall ins i l, In i ins -> in_empty i = false -> lgmin l ins <= fst i.
+Proof.
+  induction ins as [|j ins IH]; intros i l Hin He; [contradiction|].
+  rewrite lgmin_cons. destruct Hin as [->|Hin].
+  - rewrite He. pose proof (lgmin_le ins (N.min l (fst i))). lia.
+  - apply IH; assumption.
+Qed.
+
+Lemma orfolds_bit : forall lgm ins r c,
+  N.testbit (orfolds lgm ins r) c =
+  existsb (fun i => negb (in_empty i) && N.testbit (mfold (fst i) lgm (snd i) r) c) ins.
+Proof.
+  induction ins as [|i ins IH]; intros r c; cbn [orfolds existsb]; [apply N.bits_0|].
+  rewrite N.lor_spec, IH. destruct (in_empty i); cbn [negb andb]; [rewrite N.bits_0|]; reflexivity.
+Qed.
+
+(* the sequential definition equals the closed form *)
+Lemma uspec_gen : forall ins lga A,
+  fst (fold_left uspec_step ins (lga, A)) = lgmin lga ins /\
+  mbelow (2 ^ lgmin lga ins) (snd (fold_left uspec_step ins (lga, A)))
+         (fun r => N.lor (mfold lga (lgmin lga ins) A r) (orfolds (lgmin lga ins) ins r)).
+Proof.
+  induction ins as [|i ins IH]; intros lga A.
+  - cbn [fold_left fst snd lgmin orfolds]. split; [reflexivity|].
+    intros r Hr. rewrite N.lor_0_r. symmetry. apply mfold_id. exact Hr.
+  - cbn [fold_left]. rewrite lgmin_cons. unfold uspec_step at 2 4. cbn [orfolds].
+    destruct (in_empty i) eqn:Ei.
+    + destruct (IH lga A) as [H1 H2]. split; [exact H1|].
+      intros r Hr. rewrite (H2 r Hr), N.lor_0_l. reflexivity.
+    + cbn [fst snd].
+      set (l1 := N.min lga (fst i)).
+      destruct (IH l1 (mor (mfold lga l1 A) (mfold (fst i) l1 (snd i)))) as [H1 H2].
+      split; [exact H1|].
+      set (lgm := lgmin l1 ins) in *.
+      assert (Hle : lgm <= l1) by apply lgmin_le.
+      intros r Hr. rewrite (H2 r Hr), mfold_or. unfold mor.
+      rewrite (mfold_fold lga l1 lgm A ltac:(lia) ltac:(lia) r Hr).
+      rewrite (mfold_fold (fst i) l1 lgm (snd i) ltac:(lia) ltac:(lia) r Hr).
+      rewrite N.lor_assoc. reflexivity.
+Qed.
+
+Theorem uspec_closed : forall lg0 ins,
+  fst (uspec lg0 ins) = lgmin lg0 ins /\
+  mbelow (2 ^ lgmin lg0 ins) (snd (uspec lg0 ins)) (or_spec lg0 ins).
+Proof.
+  intros lg0 ins. unfold uspec. destruct (uspec_gen ins lg0 mzero) as [H1 H2].
+  split; [exact H1|]. intros r Hr. rewrite (H2 r Hr), mfold_zero, N.lor_0_l. reflexivity.
+Qed.
+
+(* ---------- laws: order and repetition of the inputs do not matter ---------- *)
+Lemma lgmin_perm : forall ins ins', Permutation ins ins' -> forall l, lgmin l ins = lgmin l ins'.
+Proof.
+  intros ins ins' P. induction P as [|x l l' P IH|x y l|l l' l'' P1 IH1 P2 IH2]; intros a.
+  - reflexivity.
+  - rewrite !lgmin_cons. apply IH.
+  - rewrite !lgmin_cons. f_equal. destruct (in_empty x), (in_empty y); lia.
+  - rewrite IH1. apply IH2.
+Qed.
+
+Lemma orfolds_perm : forall lgm ins ins', Permutation ins ins' -> forall r, orfolds lgm ins r = orfolds lgm ins' r.
+Proof.
+  intros lgm ins ins' P. induction P as [|x l l' P IH|x y l|l l' l'' P1 IH1 P2 IH2]; intros r; cbn [orfolds].
+  - reflexivity.
+  - rewrite IH. reflexivity.
+  - rewrite !N.lor_assoc. f_equal. apply N.lor_comm.
+  - rewrite IH1. apply IH2.
+Qed.
+
+Theorem or_spec_perm : forall lg0 ins ins', Permutation ins ins' ->
+  lgmin lg0 ins = lgmin lg0 ins' /\ forall r, or_spec lg0 ins r = or_spec lg0 ins' r.
+Proof.
+  intros lg0 ins ins' P. pose proof (lgmin_perm ins ins' P lg0) as E. split; [exact E|].
+  intros r. unfold or_spec. rewrite E. apply orfolds_perm. exact P.
+Qed.
+
+Theorem or_spec_dup : forall lg0 ins i, In i ins ->
+  lgmin lg0 (i :: ins) = lgmin lg0 ins /\ forall r, or_spec lg0 (i :: ins) r = or_spec lg0 ins r.
+Proof.
+  intros lg0 ins i Hin.
+  assert (E : lgmin lg0 (i :: ins) = lgmin lg0 ins).
+  { rewrite lgmin_cons. destruct (in_empty i) eqn:Ei; [reflexivity|].
+    rewrite lgmin_min. pose proof (lgmin_le_in ins i lg0 Hin Ei). lia. }
+  split; [exact E|]. intros r. unfold or_spec. rewrite E. cbn [orfolds].
+  apply N.bits_inj. intros c. rewrite N.lor_spec, orfolds_bit.
+  destruct (in_empty i) eqn:Ei; [rewrite N.bits_0; reflexivity|].
+  destruct (N.testbit (mfold (fst i) (lgmin lg0 ins) (snd i) r) c) eqn:Eb; [|reflexivity].
+  cbn [orb]. symmetry. apply existsb_exists. exists i. split; [exact Hin|]. rewrite Ei, Eb. reflexivity.
+Qed.
+
+(* the same laws for the sequential Spec (CpcUnion::update applied input by input) *)
+Theorem uspec_perm : forall lg0 ins ins', Permutation ins ins' ->
+  fst (uspec lg0 ins) = fst (uspec lg0 ins') /\
+  mbelow (2 ^ fst (uspec lg0 ins)) (snd (uspec lg0 ins)) (snd (uspec lg0 ins')).
+Proof.
+  intros lg0 ins ins' P. destruct (uspec_closed lg0 ins) as [H1 H2]. destruct (uspec_closed lg0 ins') as [H1' H2'].
+  destruct (or_spec_perm lg0 ins ins' P) as [E1 E2].
+  split; [congruence|]. rewrite H1. intros r Hr. rewrite (H2 r Hr), E2. symmetry. apply H2'. rewrite <- E1. exact Hr.
+Qed.
+
+Theorem uspec_idem : forall lg0 ins i, In i ins ->
+  fst (uspec lg0 (ins ++ [i])) = fst (uspec lg0 ins) /\
+  mbelow (2 ^ fst (uspec lg0 ins)) (snd (uspec lg0 (ins ++ [i]))) (snd (uspec lg0 ins)).
+Proof.
+  intros lg0 ins i Hin.
+  assert (P : Permutation (ins ++ [i]) (i :: ins)) by (apply Permutation_sym, Permutation_cons_append).
+  destruct (uspec_perm lg0 _ _ P) as [A1 A2].
+  destruct (uspec_closed lg0 (i :: ins)) as [H1 H2]. destruct (uspec_closed lg0 ins) as [H1' H2'].
+  destruct (or_spec_dup lg0 ins i Hin) as [E1 E2].
+  split; [congruence|]. intros r Hr.
+  rewrite (A2 r ltac:(rewrite A1, H1, E1, <- H1'; exact Hr)).
+  rewrite (H2 r ltac:(rewrite E1, <- H1'; exact Hr)), E2. symmetry. apply H2'. rewrite <- H1'. exact Hr.
 Qed.
